@@ -5,33 +5,93 @@
 (* connection c sending cmd in server state S.                              *)
 (*                                                                         *)
 (*   S.dbs   : [0..15 -> database]            (Store.tla)                   *)
-(*   S.now   : model clock                                                  *)
+(*   S.now   : model clock (ms)                                             *)
 (*   S.conn  : [connection ids -> session]                                  *)
-(*   session : [db, proto, name, multi, queue, watch, dirty]                *)
+(*   S.orph  : sequence of orphaned database objects - only ever non-empty  *)
+(*             under the deviation D_FLUSH_ORPHANS_OTHER_CONNECTIONS        *)
+(*   S.oid   : [0..15 -> [stored keys -> object id]], S.nid: last id used -  *)
+(*             the emulator's object identities, which its WATCH compares   *)
+(*             (only consulted under D_WATCH_COMPARES_OBJECT_IDS)           *)
+(*   session : [db, proto, name, multi, queue, watch, cas, o, wid]          *)
+(*     multi \in {"off","on","dirty"}; queue: queued command vectors;       *)
+(*     watch: set of <<db, key>>; cas: a watched key was modified;          *)
+(*     o: 0 = attached to S.dbs[db], n > 0 = still using S.orph[n]          *)
+(*     wid: [watched <<db,key>> -> object id seen by WATCH (0 = missing)]   *)
 (***************************************************************************)
 EXTENDS Commands
 
 DbIds == 0..15
 
 NewSess == [db |-> 0, proto |-> 2, name |-> <<>>, multi |-> "off", queue |-> <<>>,
-            watch |-> {}, cas |-> FALSE]
+            watch |-> {}, cas |-> FALSE, o |-> 0, wid |-> <<>>]
 
 EmptyDbs == [i \in DbIds |-> EmptyDb]
-InitServer(conns) == [dbs |-> EmptyDbs, now |-> 1000000, conn |-> [c \in conns |-> NewSess]]
+InitServer(conns) == [dbs |-> EmptyDbs, now |-> 1000000, conn |-> [c \in conns |-> NewSess], orph |-> <<>>,
+                      oid |-> [i \in DbIds |-> <<>>], nid |-> 0]
+\* a server state whose database 0 is d (object ids assigned arbitrarily but distinctly)
+WithDb0(S, d) == [S EXCEPT !.dbs[0] = d, !.oid[0] = [k \in DOMAIN d |-> 1], !.nid = 1]
 
 \* result of Apply: successor state, reply, deviations used, deadline comparison hints
 SRes(S, r, dv, rel, tol) == [S |-> S, r |-> r, dv |-> dv, rel |-> rel, tol |-> tol]
 SOk(S, r) == SRes(S, r, {}, {}, {})
+SDev(S, r, id) == SRes(S, r, {id}, {}, {})
 
-\* keys of database i that differ between two states (value, existence or deadline)
-Changed(d1, d2) == {k \in DOMAIN d1 \cup DOMAIN d2 :
-                      IF k \in DOMAIN d1 /\ k \in DOMAIN d2 THEN d1[k] # d2[k] ELSE TRUE}
+-----------------------------------------------------------------------------
+(* Redis arity table: n > 0 exactly n words, n < 0 at least -n words (command name included).
+   A command that violates it, or whose name is unknown, is rejected when it is queued.     *)
+Arity ==
+  [n \in Names |->
+     CASE n \in {"GET", "GETDEL", "STRLEN", "INCR", "DECR", "LLEN", "SCARD", "SMEMBERS", "HGETALL", "HKEYS", "HVALS", "HLEN",
+                 "TYPE", "KEYS", "PERSIST", "TTL", "PTTL", "EXPIRETIME", "PEXPIRETIME", "SELECT", "ECHO"} -> 2
+       [] n \in {"SETNX", "GETSET", "APPEND", "INCRBY", "DECRBY", "INCRBYFLOAT", "LINDEX", "RPOPLPUSH", "SISMEMBER", "HGET",
+                 "HEXISTS", "HSTRLEN", "RENAME", "RENAMENX"} -> 3
+       [] n \in {"SETEX", "PSETEX", "GETRANGE", "SUBSTR", "SETRANGE", "LRANGE", "LSET", "LREM", "LTRIM", "SMOVE", "HSETNX",
+                 "HINCRBY", "HINCRBYFLOAT", "BRPOPLPUSH"} -> 4
+       [] n \in {"LINSERT", "LMOVE"} -> 5
+       [] n = "BLMOVE" -> 6
+       [] n \in {"RANDOMKEY", "DBSIZE", "MULTI", "EXEC", "DISCARD", "UNWATCH"} -> 1
+       [] n \in {"FLUSHDB", "FLUSHALL", "PING", "HELLO", "QUIT"} -> -1
+       [] n \in {"GETEX", "MGET", "LPOP", "RPOP", "SRANDMEMBER", "SINTER", "SUNION", "SDIFF", "HRANDFIELD", "DEL", "UNLINK",
+                 "EXISTS", "TOUCH", "SORT", "WATCH"} -> -2
+       [] n \in {"SET", "MSET", "MSETNX", "LCS", "LPUSH", "RPUSH", "LPUSHX", "RPUSHX", "LPOS", "SADD", "SREM", "SMISMEMBER",
+                 "SINTERSTORE", "SUNIONSTORE", "SDIFFSTORE", "SINTERCARD", "HMGET", "HDEL", "COPY", "EXPIRE", "PEXPIRE",
+                 "EXPIREAT", "PEXPIREAT", "BLPOP", "BRPOP"} -> -3
+       [] n \in {"LMPOP", "HSET", "HMSET"} -> -4
+       [] n = "BLMPOP" -> -5
+       [] OTHER -> -1]
+ArityOk(cmd) ==
+    LET nm == CmdName(cmd)
+    IN  nm # "?" /\ (IF Arity[nm] > 0 THEN Len(cmd) = Arity[nm] ELSE Len(cmd) >= -Arity[nm])
+
+-----------------------------------------------------------------------------
+\* the database object connection c works on, and writing it back
+DbOf(S, c) == IF S.conn[c].o = 0 THEN S.dbs[S.conn[c].db] ELSE S.orph[S.conn[c].o]
+WithDb(S, c, d) == IF S.conn[c].o = 0 THEN [S EXCEPT !.dbs[S.conn[c].db] = d] ELSE [S EXCEPT !.orph[S.conn[c].o] = d]
+
+LiveEnt(db, now, k) == IF k \in DOMAIN db /\ IsLive(db[k], now) THEN db[k] ELSE [ty |-> "none"]
+
+(* WATCH bookkeeping (ideal): after any step, a session whose watched key differs between
+   the two states (value, existence or deadline - as a client could observe them) is flagged.
+   Alongside, the emulator's object identities are maintained: a key gets a fresh id when it is
+   created or when a command of the "replacing" kind rewrites it; in-place mutators keep the id. *)
+Recreating == {"SET", "SETNX", "SETEX", "PSETEX", "GETSET", "MSET", "MSETNX", "APPEND", "SETRANGE", "INCR", "DECR", "INCRBY",
+               "DECRBY", "INCRBYFLOAT", "SINTERSTORE", "SUNIONSTORE", "SDIFFSTORE", "RENAME", "RENAMENX", "COPY",
+               "SETBIT", "BITOP", "BITFIELD"}
+Flag(S1, S2, nm) ==
+    [S2 EXCEPT
+       !.conn = [c \in DOMAIN S2.conn |->
+          IF \E w \in S2.conn[c].watch : LiveEnt(S1.dbs[w[1]], S1.now, w[2]) # LiveEnt(S2.dbs[w[1]], S2.now, w[2])
+          THEN [S2.conn[c] EXCEPT !.cas = TRUE] ELSE S2.conn[c]],
+       !.oid = [i \in DbIds |-> [k \in DOMAIN S2.dbs[i] |->
+                   IF k \notin DOMAIN S1.dbs[i] \/ k \notin DOMAIN S1.oid[i] THEN S1.nid + 1
+                   ELSE IF S1.dbs[i][k] # S2.dbs[i][k] /\ nm \in Recreating THEN S1.nid + 1
+                   ELSE S1.oid[i][k]]],
+       !.nid = S1.nid + 1]
 
 \* a data command of connection c on its selected database
 DataCmd(S, c, cmd) ==
-    LET i == S.conn[c].db
-        res == Exec1(S.dbs[i], S.now, cmd)
-    IN  SRes([S EXCEPT !.dbs[i] = res.db], res.r, res.dv, res.rel, res.tol)
+    LET res == Exec1(DbOf(S, c), S.now, cmd)
+    IN  SRes(WithDb(S, c, res.db), res.r, res.dv, res.rel, res.tol)
 
 \* every stored object of database i, expired or not, counts for the emulator's DBSIZE
 DbSize(S, c, a) ==
@@ -39,23 +99,52 @@ DbSize(S, c, a) ==
         live == Live(S.dbs[i], S.now)
     IN  IF Len(a) # 0 THEN SOk(S, EArg)
         ELSE IF On("D_DBSIZE_COUNTS_EXPIRED_KEYS") /\ DOMAIN live # DOMAIN S.dbs[i]
-             THEN SRes(S, RInt(Cardinality(DOMAIN S.dbs[i])), {"D_DBSIZE_COUNTS_EXPIRED_KEYS"}, {}, {})
+             THEN SDev(S, RInt(Cardinality(DOMAIN S.dbs[i])), "D_DBSIZE_COUNTS_EXPIRED_KEYS")
         ELSE SOk(S, RInt(Cardinality(DOMAIN live)))
 
 Select(S, c, a) ==
     LET n == ArgInt(a[1])
     IN  IF Len(a) # 1 \/ ~n.ok THEN SOk(S, EArg)
         ELSE IF n.v \notin DbIds THEN SOk(S, RErr("ERR"))
-        ELSE SOk([S EXCEPT !.conn[c].db = n.v], ROk)
+        ELSE SOk([S EXCEPT !.conn[c].db = n.v, !.conn[c].o = 0], ROk)
+
+(* FLUSHDB / FLUSHALL.  The emulator drops the database object from its table and only the
+   caller re-selects: every other connection that had the database selected keeps reading and
+   writing the orphaned object (shared among them) until its next SELECT.                      *)
+Orphaned(S, c, ids) == {x \in DOMAIN S.conn : x # c /\ S.conn[x].o = 0 /\ S.conn[x].db \in ids /\ DOMAIN S.dbs[S.conn[x].db] # {}}
+RECURSIVE Detach(_, _, _)
+Detach(S, c, ids) ==
+    IF Orphaned(S, c, ids) = {} THEN S
+    ELSE LET x == CHOOSE x \in Orphaned(S, c, ids) : TRUE
+             i == S.conn[x].db
+             n == Len(S.orph) + 1
+             S1 == [S EXCEPT !.orph = Append(S.orph, S.dbs[i]),
+                             !.conn = [y \in DOMAIN S.conn |-> IF y # c /\ S.conn[y].o = 0 /\ S.conn[y].db = i
+                                                               THEN [S.conn[y] EXCEPT !.o = n] ELSE S.conn[y]]]
+         IN  Detach(S1, c, ids \ {i})
 
 FlushOk(a) == Len(a) = 0 \/ (Len(a) = 1 /\ (Is(a[1], "SYNC") \/ Is(a[1], "ASYNC")))
-FlushDb(S, c, a) ==
-    IF ~FlushOk(a) THEN SOk(S, EArg) ELSE SOk([S EXCEPT !.dbs[S.conn[c].db] = EmptyDb], ROk)
-FlushAll(S, c, a) ==
-    IF ~FlushOk(a) THEN SOk(S, EArg) ELSE SOk([S EXCEPT !.dbs = EmptyDbs], ROk)
+Flush(S, c, a, ids) ==
+    LET emptied == [S EXCEPT !.dbs = [i \in DbIds |-> IF i \in ids THEN EmptyDb ELSE S.dbs[i]], !.conn[c].o = 0]
+    IN  IF ~FlushOk(a) THEN SOk(S, EArg)
+        ELSE IF On("D_FLUSH_ORPHANS_OTHER_CONNECTIONS") /\ Orphaned(S, c, ids) # {}
+             THEN LET S1 == Detach(S, c, ids)
+                  IN  SDev([S1 EXCEPT !.dbs = [i \in DbIds |-> IF i \in ids THEN EmptyDb ELSE S1.dbs[i]], !.conn[c].o = 0],
+                           ROk, "D_FLUSH_ORPHANS_OTHER_CONNECTIONS")
+        ELSE SOk(emptied, ROk)
 
 Ping(S, a) == IF Len(a) = 0 THEN SOk(S, RSimple("PONG")) ELSE IF Len(a) = 1 THEN SOk(S, RBulk(a[1])) ELSE SOk(S, EArg)
 Echo(S, a) == IF Len(a) = 1 THEN SOk(S, RBulk(a[1])) ELSE SOk(S, EArg)
+
+\* HELLO [protover]: 2 and 3 switch the connection; anything else is refused and changes nothing
+Hello(S, c, a) ==
+    LET v == ArgInt(a[1])
+    IN  IF Len(a) = 0 THEN SOk(S, [t |-> "hello", proto |-> S.conn[c].proto])
+        ELSE IF Len(a) > 1 THEN SOk(S, RErr("*"))        \* AUTH / SETNAME options are not modelled
+        ELSE IF v.ok /\ v.v \in {2, 3} THEN SOk([S EXCEPT !.conn[c].proto = v.v], [t |-> "hello", proto |-> v.v])
+        ELSE IF v.ok /\ On("D_HELLO_ACCEPTS_ANY_VERSION")
+             THEN SDev([S EXCEPT !.conn[c].proto = v.v], [t |-> "hello", proto |-> v.v], "D_HELLO_ACCEPTS_ANY_VERSION")
+        ELSE SOk(S, RErr("*"))
 
 \* one command outside MULTI (or executed by EXEC)
 Run(S, c, cmd) ==
@@ -64,12 +153,87 @@ Run(S, c, cmd) ==
     IN  CASE nm \in DataNames -> DataCmd(S, c, cmd)
           [] nm = "DBSIZE" -> DbSize(S, c, a)
           [] nm = "SELECT" -> Select(S, c, a)
-          [] nm = "FLUSHDB" -> FlushDb(S, c, a)
-          [] nm = "FLUSHALL" -> FlushAll(S, c, a)
+          [] nm = "FLUSHDB" -> Flush(S, c, a, {S.conn[c].db})
+          [] nm = "FLUSHALL" -> Flush(S, c, a, DbIds)
           [] nm = "PING" -> Ping(S, a)
           [] nm = "ECHO" -> Echo(S, a)
+          [] nm = "HELLO" -> Hello(S, c, a)
+          [] nm = "UNWATCH" -> IF Len(a) # 0 THEN SOk(S, EArg)
+                               ELSE SOk([S EXCEPT !.conn[c].watch = {}, !.conn[c].cas = FALSE, !.conn[c].wid = <<>>], ROk)
           [] OTHER -> SOk(S, RErr("ERR"))
 
-Apply(S, c, cmd) == Run(S, c, cmd)
+-----------------------------------------------------------------------------
+(* Transactions *)
+
+ResetTxn(S, c) == [S EXCEPT !.conn[c].multi = "off", !.conn[c].queue = <<>>, !.conn[c].watch = {}, !.conn[c].cas = FALSE,
+                             !.conn[c].wid = <<>>]
+
+\* run the queue in order; every command sees the effects of the previous ones; errors do not stop it
+RECURSIVE RunQueue(_, _, _, _)
+RunQueue(S, c, q, acc) ==
+    IF q = <<>> THEN acc
+    ELSE LET res == Run(S, c, Head(q))
+             S2 == Flag(S, res.S, CmdName(Head(q)))
+         IN  RunQueue(S2, c, Tail(q), [S |-> S2, rs |-> Append(acc.rs, res.r), dv |-> acc.dv \cup res.dv,
+                                       rel |-> acc.rel \cup res.rel, tol |-> acc.tol \cup res.tol])
+
+\* the emulator's EXEC check: the stored object (expired or not) has another id than WATCH saw
+EmuAbort(S, c) ==
+    \E w \in DOMAIN S.conn[c].wid :
+        IF w[2] \in DOMAIN S.oid[w[1]] THEN S.oid[w[1]][w[2]] # S.conn[c].wid[w] ELSE S.conn[c].wid[w] # 0
+
+Exec(S, c, a) ==
+    LET ss == S.conn[c]
+        run == RunQueue(S, c, ss.queue, [S |-> S, rs |-> <<>>, dv |-> {}, rel |-> {}, tol |-> {}])
+    IN  IF Len(a) # 0 THEN SOk(S, EArg)
+        ELSE IF ss.multi = "off" THEN SOk(S, RErr("ERR"))
+        ELSE IF ss.multi = "dirty" THEN SOk(ResetTxn(S, c), RErr("*"))          \* EXECABORT: nothing executed
+        ELSE IF On("D_WATCH_COMPARES_OBJECT_IDS") /\ EmuAbort(S, c) # ss.cas THEN
+             \* the emulator decides by object identity, not by modification
+             (IF EmuAbort(S, c)
+              THEN SRes(IF On("D_EXEC_WATCH_ABORT_KEEPS_MULTI") THEN S ELSE ResetTxn(S, c), RNil, {"D_WATCH_COMPARES_OBJECT_IDS"}, {}, {})
+              ELSE SRes(ResetTxn(run.S, c), RArr(run.rs), run.dv \cup {"D_WATCH_COMPARES_OBJECT_IDS"}, run.rel, run.tol))
+        ELSE IF ss.cas THEN
+             (IF On("D_EXEC_WATCH_ABORT_KEEPS_MULTI") THEN SDev(S, RNil, "D_EXEC_WATCH_ABORT_KEEPS_MULTI")
+              ELSE SOk(ResetTxn(S, c), RNil))
+        ELSE SRes(ResetTxn(run.S, c), RArr(run.rs), run.dv, run.rel, run.tol)
+
+Watch(S, c, a) ==
+    LET i == S.conn[c].db
+        ws == {<<i, a[j]>> : j \in 1..Len(a)}
+        seen(w) == IF w[2] \in DOMAIN S.dbs[i] /\ IsLive(S.dbs[i][w[2]], S.now) /\ w[2] \in DOMAIN S.oid[i] THEN S.oid[i][w[2]] ELSE 0
+        old == S.conn[c].wid
+    IN  IF Len(a) < 1 THEN SOk(S, EArg)
+        ELSE SOk([S EXCEPT !.conn[c].watch = @ \cup ws,
+                           !.conn[c].wid = [w \in DOMAIN old \cup ws |-> IF w \in ws THEN seen(w) ELSE old[w]]], ROk)
+
+\* blocking commands never block inside EXEC and reply as their non-blocking counterparts; they are
+\* not in the transaction vocabulary of the bounded models yet (see Blocking.tla)
+
+Apply(S, c, cmd) ==
+    LET ss == S.conn[c]
+        nm == CmdName(cmd)
+        a == Tail(cmd)
+        res ==
+          IF ss.multi = "off" THEN
+             CASE nm = "MULTI" -> IF Len(a) # 0 THEN SOk(S, EArg) ELSE SOk([S EXCEPT !.conn[c].multi = "on"], ROk)
+               [] nm = "EXEC" -> Exec(S, c, a)
+               [] nm = "DISCARD" -> SOk(S, RErr("ERR"))
+               [] nm = "WATCH" -> Watch(S, c, a)
+               [] OTHER -> Run(S, c, cmd)
+          ELSE
+             CASE nm = "MULTI" -> SOk(S, RErr("ERR"))                     \* nested: error, state as it was
+               [] nm = "WATCH" -> SOk(S, RErr("ERR"))                     \* inside MULTI: error, state as it was
+               [] nm = "EXEC" -> Exec(S, c, a)
+               [] nm = "DISCARD" -> IF Len(a) # 0 THEN SOk(S, EArg) ELSE SOk(ResetTxn(S, c), ROk)
+               [] OTHER ->
+                    IF ~ArityOk(cmd) THEN
+                         (IF On("D_EXEC_RUNS_AFTER_QUEUE_ERROR") THEN SDev(S, RErr("ERR"), "D_EXEC_RUNS_AFTER_QUEUE_ERROR")
+                          ELSE SOk([S EXCEPT !.conn[c].multi = "dirty"], RErr("ERR")))
+                    ELSE SOk([S EXCEPT !.conn[c].queue = Append(@, cmd)], RSimple("QUEUED"))
+    IN  [res EXCEPT !.S = Flag(S, res.S, nm)]
+
+\* time passes: deadlines may be crossed; watchers of keys that expire are flagged
+Tick(S, dt) == [Flag(S, [S EXCEPT !.now = @ + dt], "tick") EXCEPT !.oid = S.oid, !.nid = S.nid]
 
 =============================================================================
